@@ -11,7 +11,7 @@ class Prop(C02):
     props_file = 'Props/C15.v'
     required_theorems = ['no_empty_destination', 'stats_eq_recount', 'no_counter_underflow', 'table_totals_eq_recount',
                          'limit_counter_refuted', 'limit_respected_outside_known', 'limit_rejection_installs_nothing',
-                         'remove_finds_stats', 'stats_eq_adjin_view', 'known_class_narrowed']
+                         'remove_finds_stats', 'stats_eq_adjin_view', 'known_class_narrowed', 'limit_signalled_only_when_full']
     extra_targets = ['Model/Rib.vo']
     correspondence_name = 'Model/Rib.v step (route_stats, limit counters, Table::state) vs rustybgp_table::Table (harness/hx-rib, debug and release)'
     trusted_base = C02.trusted_base + [
@@ -22,7 +22,8 @@ class Prop(C02):
     assumptions = ['a Source object (allocation token) always denotes the same remote address', 'configured maxima are u32 values']
     rule = ('histories with per-session prefix limits 0..5 over 3 prefixes x 3 path ids, 3 peers sharing prefixes, filtered/unfiltered transitions, '
             'peer drop, stale/LLGR/NO_LLGR purges, limit-exceeded insertions and session restarts; non-trivial = some counter or statistic is > 0 '
-            'at some step and some removal happened; distinct = distinct sequence of (statistics, counters, totals)')
+            'at some step and some removal happened; distinct = distinct sequence of (statistics, counters, totals)'
+            ' Enumerated on every run (gen/ribenum.py, tags enum:*): every operation of a 90-operation alphabet on each of 21 pre-states; two-candidate duels deciding at exactly one step of the decision order with the loser better at every later step, single-step ECMP exclusions, complete ties, EVPN MAC-mobility forms in every extended-community layout, LLGR_STALE / NO_LLGR in every community position; AS_PATH hop counts on both sides of 0/1/63/64/65/127/128/255/256/510 in every segment shape including unknown segment types and hundreds of one-AS segments; 67 (thorough: 131) prefixes crossing the id bitmap words with ids freed and re-used; prefix limits 0/1/2/u32::MAX; u32 ends of path ids, LOCAL_PREF, router ids, CLUSTER_LIST lengths; all role pairs.')
 
     enum_which = 'c15'
 
